@@ -47,8 +47,8 @@ structure Header where
 deriving Repr, DecidableEq
 
 /-- `Pager::alloc_page_zero` -/
-def toHeader (c : Config) : Header :=
-  { pageSize := c.pageSize % 2 ^ 32, cacheSize := c.cacheSize % 2 ^ 16, minKeys := c.minKeys % 2 ^ 8,
+def toHeader (D : Defects) (c : Config) : Header :=
+  { pageSize := c.pageSize % 2 ^ 32, cacheSize := AxVerif.Cache.headerCacheSize D c.cacheSize, minKeys := c.minKeys % 2 ^ 8,
     siblings := c.siblings % 2 ^ 8 }
 
 /-- What the engine runs with. -/
@@ -60,8 +60,8 @@ structure Effective where
 deriving Repr, DecidableEq
 
 /-- in the session that created the database (`Pager::from_config`) -/
-def effectiveAtCreate (c : Config) : Effective :=
-  let h := toHeader c
+def effectiveAtCreate (D : Defects) (c : Config) : Effective :=
+  let h := toHeader D c
   { pageSize := h.pageSize, cacheCapacity := c.cacheSize, minKeys := h.minKeys, siblings := h.siblings }
 
 /-- after `Pager::open` -/
